@@ -17,10 +17,10 @@ _cache = {}
 
 
 def run(tier="quick", prop=None, log=print):
-    if "r" in _cache:
-        return _cache["r"]
-    hs = K.plan_stk()
-    res, st = R.run_generic("stk", hs, K.build_stk, K.stk_hash(), tier, log=log, shard_cap=40, timeout_s=900)
+    if tier in _cache:
+        return _cache[tier]
+    hs = K.plan_stk(tier)
+    res, st = R.run_generic("stk", hs, K.build_stk, K.stk_hash(), tier, log=log, shard_cap=40, timeout_s=900 if tier == "quick" else 3000)
     obs = []
     for h in hs:
         r = res[h["name"]]
@@ -68,5 +68,5 @@ def run(tier="quick", prop=None, log=print):
         explanation="Kani harnesses on the real stack initialisers against the memory contract; concrete list lengths, symbolic everything else",
         stk_stats=st,
     )
-    _cache["r"] = (obs, info)
+    _cache[tier] = (obs, info)
     return obs, info
